@@ -665,7 +665,31 @@ def r12(ctx):
         raise AnalysisBroken('C16.R12: store to m_userLevels not found in UserList::addFromFile')
 
 
+def r13(ctx):
+    ctx.rule('C16.R13', 'a message inherits the access level of its defaults row: the getDefault() call that yields the level in '
+             'Message::create (the one that is handed the "level" column) is not marked "required" - with that flag an empty '
+             'level column is returned as it is, the level of the *r / *w row is ignored and the message is loaded without '
+             'access level, readable by everyone', minimum=1)
+    fb = ctx.fb
+    fn = fb.fn('ebusd::Message::create')
+    ctx.touch(fn)
+    n = 0
+    for c in fn.calls('getDefault'):
+        v = fn.nodes[c]
+        args = v.get('args', [])
+        if len(args) < 3 or '"level"' not in fn.key(args[2]):
+            continue
+        n += 1
+        req = args[4] if len(args) > 4 else None
+        rv = None if req is None else fn.nodes[fn.strip(req, casts=True)]
+        ok = req is None or rv.get('k') == 'CXXDefaultArgExpr' or fn.val(req) == 0
+        ctx.ob('C16.R13', fn, c, ok, 'default for the level column', 'an empty level falls back to the level of the defaults row: %s' % ok)
+    if n < 1:
+        raise AnalysisBroken('C16.R13: the getDefault call for the level column was not found in Message::create')
+
+
 def run(ctx):
+    r13(ctx)
     r12(ctx)
     r11(ctx)
     r8(ctx)
